@@ -84,6 +84,17 @@ def run(ctx):
             j_ = {'op': 'estimate', 'lib': spec, 'mapping': mp, 'Ts': Ts, 'props': ('cp', 'h', 's'), 'se': True, 'kind': 'out-of-basis'}
             lo = max(0, first - 60)
             jobs.insert(rng.randint(lo, len(jobs)), j_)
+    # libraries without a file path (built from loaded contents) next to each other in one process
+    withuq = [s_ for s_ in uqs]
+    import copy
+    extra = []
+    for j_ in [x for x in jobs if x['kind'] in ('unit', 'random')][::7][:ctx.n(20, 120)]:
+        others = [s_ for s_ in withuq if s_ != j_['lib']]
+        if others:
+            c_ = copy.deepcopy(j_)
+            c_['pathless_after'] = rng.choice(others)
+            extra.append(c_)
+    jobs += extra
     if len([s for s in uqs if s in libs]) < 3:
         ctx.broken.append('fewer than three shipped libraries carry uncertainty data')
     jobs.sort(key=lambda j: j['lib'])
